@@ -6,14 +6,72 @@ import DimodProofs.CqmRelabel
     `specStepAll` extends `specStep` (same value wherever that one is defined, except that `add_constraint` from an iterable
     is now covered for soft constraints too) to: `set_objective(model)`, `add_constraint(model | comparison)` hard and soft,
     copied or moved, the three `add_discrete` forms, `remove_variable`, `spin_to_binary`, `set_lower_bound` /
-    `set_upper_bound`, `relabel_constraints`, `deepcopy`.  Outside: `add_variable` (the generated label / default bounds make
-    its per-step statement relational), `flip_variable`, `change_vartype`, `relabel_variables` (per-field statements
+    `set_upper_bound`, `relabel_constraints`, `deepcopy`.  `add_variable` (given or generated label, stored bounds).  Outside: `flip_variable`, `change_vartype`, `relabel_variables` (per-field statements
     `relabel_refines`, `refines_flipVariable`, `refines_changeVartype`). -/
 
 namespace CqmP
 open Expr Cqm
 
+theorem lcqm_ext' {a b : LCqm} (h1 : a.labels = b.labels) (h2 : a.info = b.info) (h3 : a.obj = b.obj) (h4 : a.cons = b.cons) : a = b := by
+  cases a; cases b; simp only [LCqm.mk.injEq]; exact ⟨h1, h2, h3, h4⟩
+
+/-- `add_variable` on the list of polynomials with the stored bounds given: an existing label is left alone (the call only
+    succeeds when type and given bounds match), a new one — given, or generated from the labels present — is appended -/
+def LCqm.addVariableCore (s : LCqm) (vt : VT4) (v : Option Label) (lbv ubv : Rat) : LCqm :=
+  match v with
+  | some l => if l ∈ s.labels then s
+              else { s with labels := s.labels ++ [l], info := fun x => if x = l then some (vt, lbv, ubv) else s.info x }
+  | none => { s with labels := s.labels ++ [LSpec.autoLabel s.labels],
+                     info := fun x => if x = LSpec.autoLabel s.labels then some (vt, lbv, ubv) else s.info x }
+
+/-- `add_variable(vartype, v, lower_bound, upper_bound)`: SPIN/BINARY bounds are fixed; otherwise the argument or the type's default -/
+def LCqm.addVariable (s : LCqm) (vt : VT4) (v : Option Label) (lb ub : Option Rat) : LCqm :=
+  s.addVariableCore vt v (if vt = .spin then -1 else if vt = .binary then 0 else lb.getD vt.defaultMin)
+    (if vt = .spin then 1 else if vt = .binary then 1 else ub.getD vt.defaultMax)
+
+theorem refines_addVariableCoreF {m m' : Cqm} (hwf : CqmWF m) (vt : VT4) (v : Option Label) (lbG ubG : Bool) (lbv ubv : Rat)
+    (h' : m.addVariableCore vt v lbG ubG lbv ubv = (m', none)) : absCqm m' = (absCqm m).addVariableCore vt v lbv ubv := by
+  unfold Cqm.addVariableCore at h'
+  split_ifs at h'
+  all_goals try (cases (Prod.mk.inj h').2)
+  cases v with
+  | none =>
+    simp only [] at h'
+    rw [← (Prod.mk.inj h').1]
+    obtain ⟨a1, a2, a3, a4⟩ := absCqm_appendVar hwf vt lbv ubv (autoLabel_fresh m.labels)
+    exact lcqm_ext' a1 (funext a2) a3 a4
+  | some l0 =>
+    simp only [] at h'
+    cases hidx : m.idx? l0 with
+    | some i =>
+      rw [hidx] at h'
+      simp only [] at h'
+      split_ifs at h'
+      all_goals try (cases (Prod.mk.inj h').2)
+      rw [← (Prod.mk.inj h').1]
+      have hmem : l0 ∈ m.labels := by
+        by_contra hn
+        have := (findIdx_none_iff (s := 0)).mpr hn
+        unfold Cqm.idx? at hidx
+        rw [this] at hidx; cases hidx
+      show absCqm m = if l0 ∈ m.labels then absCqm m else _
+      rw [if_pos hmem]
+    | none =>
+      rw [hidx] at h'
+      simp only [] at h'
+      rw [← (Prod.mk.inj h').1]
+      have hn := idx?_none_not_mem hidx
+      obtain ⟨a1, a2, a3, a4⟩ := absCqm_appendVar hwf vt lbv ubv hn
+      show _ = if l0 ∈ m.labels then absCqm m else _
+      rw [if_neg hn]
+      exact lcqm_ext' a1 (funext a2) a3 a4
+
+theorem refines_addVariableF {m m' : Cqm} (hwf : CqmWF m) (vt : VT4) (v : Option Label) (lb ub : Option Rat)
+    (h : m.step (.addVariable vt v lb ub) = (m', none)) : absCqm m' = (absCqm m).addVariable vt v lb ub :=
+  refines_addVariableCoreF hwf vt v _ _ _ _ h
+
 def specStepAll (s : LCqm) : Op → Option LCqm
+  | .addVariable vt v lb ub => some (s.addVariable vt v lb ub)
   | .addConstraintTerms ts sense rhs label weight pen =>
     some { s with cons := s.cons ++
       [(label, { LCons.hard (ts.foldl (LPoly.addTerm s.vtOf) LPoly.empty) sense rhs with
@@ -98,7 +156,9 @@ theorem specStepAll_refines {m : Cqm} (h : RefInv m) (op : Op) (hop : OpOK2 op) 
     exact lcqm_ext a3 a4 a2 a1
   | deepcopy =>
     injection hs with hs
-  | addVariable vt v lb ub => exact specStep_refines h _ s' hs hok
+  | addVariable vt v lb ub =>
+    injection hs with hs; rw [← hs]
+    exact refines_addVariableF h.wf vt v lb ub hm
   | setObjectiveTerms ts => exact specStep_refines h _ s' hs hok
   | fixVariable v a => exact specStep_refines h _ s' hs hok
   | fixVariables fixed => exact specStep_refines h _ s' hs hok
@@ -137,7 +197,7 @@ theorem specRunAll_refines (ops : List Op) : ∀ {m : Cqm}, RefInv m → (∀ op
 
 /-- the operations the extended fold covers -/
 def inFold : Op → Bool
-  | .addVariable .. | .flipVariable .. | .changeVartype .. | .relabelVariables .. => false
+  | .flipVariable .. | .changeVartype .. | .relabelVariables .. => false
   | _ => true
 
 end CqmP
